@@ -105,6 +105,8 @@ pub trait Flavour: Sized + 'static {
     fn g_get(g: &Self::Graph, k: usize) -> Option<Self::Node>;
     /// `g[k]` (panics for a non-member, like the library)
     fn g_index(g: &Self::Graph, k: usize) -> Self::Node;
+    /// `g[&k]` where the flavour implements `Index<&K>`
+    fn g_index_ref(g: &Self::Graph, k: usize) -> Option<Self::Node>;
     fn g_contains(g: &Self::Graph, k: usize) -> bool;
     fn g_len(g: &Self::Graph) -> usize;
     fn g_is_empty(g: &Self::Graph) -> bool;
@@ -431,6 +433,9 @@ macro_rules! directed_flavour {
             common_graph_items!($m);
             dot_attr_impl!($m);
 
+            fn g_index_ref(g: &Self::Graph, k: usize) -> Option<Self::Node> {
+                Some(g[&k].clone())
+            }
             fn g_roots(g: &Self::Graph) -> Option<Vec<Self::Node>> {
                 Some(g.roots())
             }
@@ -576,6 +581,9 @@ macro_rules! undirected_flavour {
             common_graph_items!($m);
             undirected_dot_attr!($m, $dotattr);
 
+            fn g_index_ref(_g: &Self::Graph, _k: usize) -> Option<Self::Node> {
+                None
+            }
             fn g_roots(_g: &Self::Graph) -> Option<Vec<Self::Node>> {
                 None
             }
